@@ -244,7 +244,11 @@ def run_check(P, tier, seed, replay=None):
             except Exception:  # noqa
                 pass
             if hasattr(P, "histogram"):
-                for k in P.histogram(c, r):
+                try:
+                    ks = list(P.histogram(c, r))
+                except Exception:  # noqa  (coverage bookkeeping must never decide a verdict)
+                    ks = ["histogram_error"]
+                for k in ks:
                     hist[k] = hist.get(k, 0) + 1
         if not samples and cases:
             samples.append({"case": cases[0], "impl": res.get(0)})
